@@ -128,6 +128,7 @@ def kindName : TK → String
   | .countOp => "countop" | .cleanup => "cleanup"
 
 def showEv : Ev → String
+  | .request seq => "request " ++ showVal seq
   | .touch t => "t:" ++ kindName t.kind ++ " " ++ showPV t.subj ++ " n=" ++ showVal (.str t.name) ++ " a=" ++ showPVs t.args
   | .answer (.ret v) => "a:R " ++ showPV v
   | .answer (.raise x) => "a:X " ++ showExc x
@@ -146,8 +147,8 @@ def showEv : Ev → String
 def showSt (st : St) : String :=
   " ; ".intercalate (st.log.map showEv)
     ++ " | " ++ " , ".intercalate (st.table.map (fun s => showVal s.key ++ " =o" ++ toString s.o ++ ":" ++ toString s.cnt))
-    ++ " | closed=" ++ (if st.closed then "T" else "F") ++ " req=" ++ toString st.nReq ++ " resp=" ++ toString st.nResp
-    ++ " abort=" ++ toString st.nAbort ++ " clock=" ++ toString st.clock ++ " pending=" ++ toString st.pending.length
+    ++ " | closed=" ++ (if st.closed then "T" else "F") ++ " clock=" ++ toString st.clock
+    ++ " pending=" ++ toString st.pending.length
 
 def parseStrTab (entries : List (List String)) : Option (List (Val × PyStr)) :=
   entries.filter (· ≠ []) |>.mapM (fun e =>
